@@ -41,6 +41,10 @@ type RPCServer struct {
 	// the chain at a chosen point of a client's procedure.
 	Hook func(method string, n int)
 
+	// Fail, when set and returning true, makes the request fail with an
+	// internal error instead of being answered (a transient node failure).
+	Fail func(method string, n int) bool
+
 	mu      sync.Mutex
 	Calls   map[string]int // per method
 	Unknown []string       // methods asked for that the server does not know
@@ -126,6 +130,16 @@ func (s *RPCServer) handle(w http.ResponseWriter, r *http.Request) {
 	s.mu.Unlock()
 	if hook != nil {
 		hook(req.Method, n)
+	}
+	s.mu.Lock()
+	fail := s.Fail
+	s.mu.Unlock()
+	if fail != nil && fail(req.Method, n) {
+		out, _ := json.Marshal(rpcResp{Error: &rpcErr{-1, "simulated transient failure"}, ID: req.ID})
+		w.Header().Set("Content-Type", "application/json")
+		w.WriteHeader(http.StatusInternalServerError)
+		w.Write(out)
+		return
 	}
 	res, e := s.answer(&req)
 	out, _ := json.Marshal(rpcResp{Result: res, Error: e, ID: req.ID})
